@@ -1,4 +1,5 @@
 import EchVerif.Lemmas.DNS
+import EchVerif.Lemmas.NameSpec
 /-
   C13 — the DNS codec round-trips and agrees with an independent RFC 1035/9460 codec.
   Proved here: the name codec round trip (the part everything else rests on), the header round trip,
@@ -878,6 +879,86 @@ theorem C13_message_roundtrip (m : EMessage) (b : Bytes) (hok : MsgOk m) (he : e
     rw [← hshape]
     simp only [d1, d2, d3, d4, toMessage, f1, f2, f3, f4, f5, f6, f7]
   · simp at he
+
+/-! ### agreement of the name decoder with RFC 1035, as a theorem
+
+`Spec/DNSName.lean` defines "the domain name at offset `pos` of message `raw`" as a relation
+written from RFC 1035 3.1 / 4.1.4 alone (labels, root, 14-bit pointers). -/
+
+theorem length_le_octets (n : Name) : n.length ≤ octets n := by
+  induction n with
+  | nil => simp [octets]
+  | cons l ls ih => simp only [List.length_cons, octets]; omega
+
+/-- Soundness: whatever the decoder returns for a name read at a position inside the message is
+    the RFC 1035 name at that offset, it respects the 255-octet limit, every pointer followed
+    points backwards, at most 255 of them, and the cursor it leaves is inside the message again. -/
+theorem C13_name_refines_rfc1035 (raw : Bytes) (w w' : Win) (n : Name) (hw : Win.Inside raw w)
+    (h : readName raw w = some (n, w')) :
+    Spec.NameAt raw w.pos n ∧ Spec.octets n ≤ 255 ∧
+    (∃ k, Spec.NameAtBack raw w.pos n k ∧ k ≤ 255) ∧ Win.Inside raw w' := by
+  obtain ⟨k, hk, hk2⟩ := nameLabelsF_sound raw _ false w w 0 0 n w' hw (by simp [maxPointers]) h
+  refine ⟨hk.toNameAt, ?_, ⟨k, hk, by simpa [maxPointers] using hk2⟩, ?_⟩
+  · rw [octets_eq]
+    rcases nameLabelsF_size raw _ false w w 0 0 n w' h with h1 | h1
+    · simpa [maxNameOctets] using h1
+    · subst h1; simp [octets]
+  · exact nameLabelsF_cursor raw _ false w w 0 0 n w' hw hw h
+
+/-- Completeness: every name the relation defines at an offset - pointers backwards, at most 255 of
+    them, at most 255 octets - is decoded, and decoded to exactly those labels. -/
+theorem C13_name_complete (raw : Bytes) (pos k : Nat) (n : Name) (h : Spec.NameAtBack raw pos n k)
+    (hk : k ≤ 255) (hs : Spec.octets n ≤ 255) :
+    ∃ w', readName raw ⟨pos, raw.drop pos⟩ = some (n, w') := by
+  rw [octets_eq] at hs
+  have hl := length_le_octets n
+  exact nameLabelsF_complete raw h nameFuel false ⟨pos, raw.drop pos⟩ 0 0
+    (by simpa [maxPointers] using hk) (by simpa [maxNameOctets] using hs) (by simp only [nameFuel]; omega)
+
+/-- … so on whole windows the decoder *is* the relation restricted to the budget: -/
+theorem C13_name_decoder_is_rfc1035 (raw : Bytes) (pos : Nat) (n : Name) :
+    (∃ w', readName raw ⟨pos, raw.drop pos⟩ = some (n, w')) ↔
+      ∃ k, Spec.NameAtBack raw pos n k ∧ k ≤ 255 ∧ Spec.octets n ≤ 255 := by
+  constructor
+  · rintro ⟨w', h⟩
+    obtain ⟨_, h2, ⟨k, h3, h4⟩, _⟩ := C13_name_refines_rfc1035 raw ⟨pos, raw.drop pos⟩ w' n (Win.inside_whole raw pos) h
+    exact ⟨k, h3, h4, h2⟩
+  · rintro ⟨k, h1, h2, h3⟩
+    exact C13_name_complete raw pos k n h1 h2 h3
+
+/-- the relation is a function: one name per offset (so "the" name at an offset is well defined and
+    the decoder's answer is the only one an RFC 1035 reader can give) -/
+theorem C13_name_unique (raw : Bytes) (pos k1 k2 : Nat) (n1 n2 : Name)
+    (h1 : Spec.NameAtBack raw pos n1 k1) (h2 : Spec.NameAtBack raw pos n2 k2) : n1 = n2 ∧ k1 = k2 := by
+  induction h1 generalizing n2 k2 with
+  | root h0 =>
+    cases h2 with
+    | root _ => exact ⟨rfl, rfl⟩
+    | label g0 gne _ _ _ => rw [h0] at g0; cases g0; exact absurd rfl gne
+    | ptr g0 gp _ _ _ => rw [h0] at g0; cases g0; simp at gp
+  | label h0 hne hnp _ _ ih =>
+    cases h2 with
+    | root g0 => rw [h0] at g0; cases g0; exact absurd rfl hne
+    | label g0 _ _ _ g =>
+      rw [h0] at g0; cases g0
+      obtain ⟨e1, e2⟩ := ih _ _ g
+      exact ⟨by rw [e1], e2⟩
+    | ptr g0 gp _ _ _ => rw [h0] at g0; cases g0; exact absurd gp hnp
+  | ptr h0 hp h1' _ _ ih =>
+    cases h2 with
+    | root g0 => rw [h0] at g0; cases g0; simp at hp
+    | label g0 _ gnp _ _ => rw [h0] at g0; cases g0; exact absurd hp gnp
+    | ptr g0 _ g1 _ g =>
+      rw [h0] at g0; cases g0
+      rw [h1'] at g1; cases g1
+      obtain ⟨e1, e2⟩ := ih _ _ g
+      exact ⟨e1, by omega⟩
+
+/-- non-vacuity: "ex" followed by a pointer back to it, read at the pointer -/
+example : Spec.NameAtBack [2, 101, 120, 0, 192, 0] 4 [[101, 120]] 1 :=
+  .ptr (b0 := 192) (b1 := 0) rfl (by decide) rfl (by decide)
+    (.label (len := 2) rfl (by decide) (by decide) (by decide) (.root rfl))
+
 
 /-! non-vacuity: a query for "ex" (type HTTPS) with a padded OPT record satisfies the hypotheses -/
 
